@@ -14,8 +14,26 @@ pub fn gen_case(rng: &mut Rng) -> Vec<String> {
     let solvs: Vec<u32> = g.u.solvs.keys().copied().collect();
     let vss: Vec<u32> = g.u.vsets.keys().copied().collect();
     let unions: Vec<u32> = g.u.unions.keys().copied().collect();
-    lines.push(format!("peek {}", rng.chance(1, 3) as u8));
+    // 1/4 of the cases: `get_dependencies` is asynchronous - a request is started (the future polled once), later answered
+    // or abandoned (the future dropped), and the other queries are asked in between
+    let async_deps = rng.chance(1, 4);
+    lines.push(format!("peek {}", (!async_deps && rng.chance(1, 3)) as u8));
+    if async_deps { lines.push("asyncdeps 1".into()); }
+    let mut pending: Vec<u32> = Vec::new();
     for _ in 0..rng.range(5, 40) {
+        if async_deps {
+            let l = match rng.below(12) {
+                0 | 1 | 2 => { let s = *rng.pick(&solvs); if !pending.contains(&s) { pending.push(s); } format!("op dstart {s}") }
+                3 | 4 => if pending.is_empty() { format!("op dfinish {}", rng.pick(&solvs)) } else { let k = rng.below(pending.len() as u64) as usize; format!("op dfinish {}", pending.remove(k)) },
+                5 => if pending.is_empty() { format!("op ddrop {}", rng.pick(&solvs)) } else { let k = rng.below(pending.len() as u64) as usize; format!("op ddrop {}", pending.remove(k)) },
+                6 | 7 | 8 => format!("op avail {}", if !pending.is_empty() && rng.chance(1, 2) { *rng.pick(&pending) } else { *rng.pick(&solvs) }),
+                9 => format!("op cand {}", rng.pick(&names)),
+                10 => format!("op match {}", rng.pick(&vss)),
+                _ => format!("op sorted v{}", rng.pick(&vss)),
+            };
+            lines.push(l);
+            continue;
+        }
         let l = match rng.below(11) {
             0 | 1 => format!("op cand {}", rng.pick(&names)),
             2 | 3 => format!("op match {}", rng.pick(&vss)),
@@ -36,8 +54,16 @@ pub fn run_case(lines: &[String]) -> Vec<String> {
     let u = Universe::from_lines(lines);
     let mut provider = TableProvider::new(u);
     provider.sort_peeks_deps = lines.iter().any(|l| l == "peek 1");
+    if lines.iter().any(|l| l == "asyncdeps 1") {
+        provider.gates = Some(std::rc::Rc::new(Gates::default()));
+        provider.gate_deps_only = true;
+    }
     let cache = SolverCache::new(provider);
     let mut out = Vec::new();
+    // the dependency requests that have been started and neither answered nor abandoned
+    type DepsFuture<'a> = std::pin::Pin<Box<dyn std::future::Future<Output = Result<&'a Dependencies, Box<dyn std::any::Any>>> + 'a>>;
+    let mut in_flight: Vec<(u32, DepsFuture)> = Vec::new();
+    let waker = futures::task::noop_waker();
     for l in lines.iter().filter(|l| l.starts_with("op ")) {
         let t: Vec<&str> = l.split(' ').collect();
         let r = match t[1] {
@@ -52,6 +78,35 @@ pub fn run_case(lines: &[String]) -> Vec<String> {
                 Dependencies::Unknown(r) => format!("deps unknown {}", r.0),
             },
             "avail" => format!("bool {}", cache.are_dependencies_available_for(SolvableId(t[2].parse().unwrap())) as u8),
+            "dstart" => {
+                let sv: u32 = t[2].parse().unwrap();
+                if in_flight.iter().any(|(x, _)| *x == sv) { "busy".into() } else {
+                    let mut f: DepsFuture = Box::pin(cache.get_or_cache_dependencies(SolvableId(sv)));
+                    let mut cx = std::task::Context::from_waker(&waker);
+                    match f.as_mut().poll(&mut cx) { std::task::Poll::Ready(_) => "ready".into(), std::task::Poll::Pending => { in_flight.push((sv, f)); "pending".into() } }
+                }
+            }
+            "ddrop" => {
+                let sv: u32 = t[2].parse().unwrap();
+                match in_flight.iter().position(|(x, _)| *x == sv) { Some(k) => { drop(in_flight.remove(k)); "dropped".into() } None => "none".into() }
+            }
+            "dfinish" => {
+                let sv: u32 = t[2].parse().unwrap();
+                match in_flight.iter().position(|(x, _)| *x == sv) {
+                    Some(k) => {
+                        let (_, mut f) = in_flight.remove(k);
+                        // the provider answers: open the gate the request is parked on
+                        if let Some(g) = &cache.provider().gates {
+                            let mut gs = g.gates.borrow_mut();
+                            // (gates of requests that were abandoned earlier are still listed: open them all)
+                            for gate in gs.iter_mut().filter(|x| !x.done && x.label == format!("d{sv}")) { gate.done = true; }
+                        }
+                        let mut cx = std::task::Context::from_waker(&waker);
+                        match f.as_mut().poll(&mut cx) { std::task::Poll::Ready(_) => "finished".into(), std::task::Poll::Pending => "still-pending".into() }
+                    }
+                    None => "none".into(),
+                }
+            }
             _ => "bad-op".into(),
         };
         out.push(r);
